@@ -116,20 +116,37 @@ def property_theorems(prop):
     return names, src_nc
 
 
-def forbidden_tokens(prop_modules):
-    """grep the library for proof escapes outside comments."""
+def import_closure(module):
+    """Transitive `import Cpl.*` closure of a module (file paths under lean/)."""
+    seen = {}
+    todo = [module]
+    while todo:
+        m = todo.pop()
+        if m in seen:
+            continue
+        path = os.path.join(LEAN, *m.split(".")) + ".lean"
+        if not os.path.exists(path):
+            continue
+        seen[m] = path
+        for ln in open(path):
+            mm = re.match(r"\s*import\s+(Cpl\.\S+)", ln)
+            if mm:
+                todo.append(mm.group(1))
+    return seen
+
+
+def forbidden_tokens(prop):
+    """grep the property's import closure (and the driver's) for proof escapes outside comments."""
     hits = []
-    for root, _, files in os.walk(os.path.join(LEAN, "Cpl")):
-        for f in files:
-            if not f.endswith(".lean"):
-                continue
-            p = os.path.join(root, f)
-            src = open(p).read()
-            src_nc = re.sub(r"/-.*?-/", lambda m: "\n" * m.group(0).count("\n"), src, flags=re.S)
-            src_nc = re.sub(r"--.*", "", src_nc)
-            for i, ln in enumerate(src_nc.splitlines(), 1):
-                if FORBIDDEN.search(ln):
-                    hits.append("%s:%d: %s" % (os.path.relpath(p, LEAN), i, ln.strip()))
+    files = dict(import_closure("Cpl.Properties." + prop))
+    files.update(import_closure("Main"))
+    for p in sorted(set(files.values())):
+        src = open(p).read()
+        src_nc = re.sub(r"/-.*?-/", lambda m: "\n" * m.group(0).count("\n"), src, flags=re.S)
+        src_nc = re.sub(r"--.*", "", src_nc)
+        for i, ln in enumerate(src_nc.splitlines(), 1):
+            if FORBIDDEN.search(ln):
+                hits.append("%s:%d: %s" % (os.path.relpath(p, LEAN), i, ln.strip()))
     return hits
 
 
